@@ -100,9 +100,12 @@ HAND = [
     # a spectator molecule: with a centre template the substrate has MORE components than the pattern -- the strict_cc_count guard
     # region of strategy comp (nothing returned by design), bt falls back to the exhaustive strategy
     ("spectator-water", "[CH3:1][Br:2].[OH-:3].[OH2:4]>>[CH3:1][OH:3].[Br-:2].[OH2:4]"),
+    # an INTRAMOLECULAR reaction whose centre pattern has two components (O ; C-Br) next to a spectator that offers the missing group:
+    # comp / bt return only the intermolecular reading (C06's specification) -- known findings *:centre:fwd:{comp,bt}:not-separating
+    ("intra-spectator", "[OH:1][CH2:2][CH2:3][CH2:4][CH2:5][Br:6].[CH3:7][OH:8]>>[O:1]1[CH2:2][CH2:3][CH2:4][CH2:5]1.[BrH:6].[CH3:7][OH:8]"),
 ]
 
-ALL_STRATEGIES = {"spectator-water", "meinwald-implicit", "meinwald-explicit", "glycidyl-ether", "wagner-meerwein", "aziridine-imine", "cyclopropane-open",
+ALL_STRATEGIES = {"spectator-water", "intra-spectator", "meinwald-implicit", "meinwald-explicit", "glycidyl-ether", "wagner-meerwein", "aziridine-imine", "cyclopropane-open",
                   "identity", "salt", "diels-alder", "suzuki-type"}
 # reactions used for the API-surface and history cases (small, one per feature: explicit H, charges, symmetric, 3-ring, two donors, H2)
 HIST_RX = ["sn2-explicit", "quaternisation", "diels-alder", "meinwald-explicit", "double-donor", "hydrogenation"]
@@ -197,9 +200,17 @@ def _graph_level(case):
     import networkx as nx
     hcc, pcc = nx.number_connected_components(host), nx.number_connected_components(pat)
     o["guard"] = bool(strategy == "comp" and pcc > 0 and hcc > pcc)
+    # the identity does not SEPARATE the pattern components (two of them lie in one substrate component) while the substrate has as many
+    # components as the pattern: by C06's specification comp returns only separating matches, bt returns comp's answer unless it is empty
+    comp_of = {n: k for k, c in enumerate(nx.connected_components(host)) for n in c}
+    hit = [comp_of.get(next(iter(pc))) for pc in nx.connected_components(pat)]
+    o["nonsep"] = bool(strategy in ("comp", "bt") and pcc > 0 and hcc == pcc and len(set(hit)) < len(hit))
     o["raw"], o["mappings"] = raw, mappings
     o.update(rule=rule, left=left, flag=flag, pat=pat, idm=idm, nraw=len(raw), nmaps=len(mappings),
              id_in_raw=idm in raw, id_kept=idm in mappings, its_list=its_list, its_err=its_err)
+    # in that class the identity is outside what the strategy returns by its specification iff comp's answer is not empty; the model is
+    # told so through [guard] ONLY together with enumerating the raw matches itself (chk_raw forced in prepare: fail closed otherwise)
+    o["nonsep_excluded"] = bool(o["nonsep"] and not o["id_in_raw"] and (strategy == "comp" or len(raw) > 0))
     # ---- gluing along the identity (static method, no RDKit)
     st = Strategy.from_string(strategy)
     remaps, hx = None, None
@@ -268,14 +279,15 @@ def prepare(case):
     try:
         case["pre"] = {"G": _host_json(o["G"]), "H": _host_json(o["H"]),
                        "remaps": None if o["remaps"] is None else [[int(n) for n in o["idm"]], [K.map_pairs(m) for m in o["remaps"]]],
-                       "guard": o["guard"], "kept": [K.map_pairs(m) for m in o["kept"]],
+                       "guard": bool(o["guard"] or (o["nonsep_excluded"] and o["nraw"] <= CHK_NRAW)), "nonsep": o["nonsep"],
+                       "kept": [K.map_pairs(m) for m in o["kept"]],
                        "nchanged": sum(1 for _, _, d in o["rc0"].edges(data=True) if d["order"][0] != d["order"][1]),
                        "mode": o["mode"], "outside": bool(o["outside"]),
                        # the matching stage: raw matches in engine order for the model's pruning; whether the model enumerates them itself
                        "raw": ([K.map_pairs(m) for m in o["raw"]]
                                if o["nraw"] <= MAX_RAW and o["rule"].rc.raw.number_of_nodes() <= MAX_RULE else None),
-                       "chk_raw": bool(o["host"].number_of_nodes() <= CHK_HOST and o["pat"].number_of_nodes() <= CHK_PAT
-                                       and o["nraw"] <= CHK_NRAW)}
+                       "chk_raw": bool((o["host"].number_of_nodes() <= CHK_HOST and o["pat"].number_of_nodes() <= CHK_PAT
+                                        and o["nraw"] <= CHK_NRAW) or (o["nonsep"] and o["nraw"] <= CHK_NRAW))}
     except Exception as e:
         case["pre"] = {"error": "encoding: " + str(e)[:160]}
     return case
@@ -329,7 +341,7 @@ def _impl_m(case):
         return base
     from ..tok import S
     o = graph_level(case)
-    pre = case["pre"]
+    pre = case.get("pre") or prepare(case)["pre"]
     nonneg = 1 if all(int(d.get("hcount", 0)) >= 0 for _, d in o["pat"].nodes(data=True)) else 0
     rawset = [S([K.map_obs(m) for m in o["raw"]])] if pre.get("chk_raw") else []
     kept = [[K.map_obs(m) for m in o["mappings"]]] if pre.get("raw") is not None else []
@@ -670,6 +682,11 @@ def _oracle_plain(case):
                      detail="centre template misses the reaction and the difference is not confined to the atoms %r outside the centre" % (o["outside"][:6],))]
     if not _sub_is_implicit_form(sub, o["host"]):
         return [dict(clause="substrate-parse", detail="unmapped side %r does not parse to the implicit-hydrogen form of the mapped side" % sub)]
+    if o["nonsep_excluded"]:
+        return [dict(clause="not-separating", key="%s:%s:not-separating" % (base, strategy),
+                     detail="strategy %s returns only matches that put different pattern components into different substrate components "
+                            "(C06): the identity, a valid match, puts two of the %d pattern components into one molecule and is not returned"
+                            % (strategy, pcc_of(o)))]
     if not o["id_in_raw"]:
         return [dict(clause="no-identity-match", detail="identity is not among the %d raw matches of the own template (mode %s)" % (o["nraw"], mode))]
     if o["flag"] and not o["remaps"]:
@@ -688,6 +705,11 @@ def _oracle_plain(case):
     if ns2 < ni2:
         return [dict(clause="rdkit-drop", detail="%d of %d glued ITS graphs are dropped by _to_smarts (RDKit refuses them); the regenerating one is not returned" % (ni2 - ns2, ni2))]
     return [dict(clause="not-among-results", detail="graph level regenerates, %d results returned, none standardises to the reaction" % ns2)]
+
+
+def pcc_of(o):
+    import networkx as nx
+    return nx.number_connected_components(o["pat"])
 
 
 def _explained_by_outside(o):
@@ -775,6 +797,7 @@ def distribution(cases, obss):
             d[k][v] = d[k].get(v, 0) + 1
         rx.add(c.get("cid"))
         d["comp_guard_region"] += 1 if pre.get("guard") else 0
+        d["identity_not_separating"] = d.get("identity_not_separating", 0) + (1 if pre.get("nonsep") else 0)
         if len(o) >= 15 and pre.get("mode") in ("E", "I"):
             d["rule_describes_pair"][pre["mode"]] += 1 if o[13] else 0
             d["glued_is_pair_before_explicit_h"][pre["mode"]] += 1 if (o[14] and o[14][0] == 1) else 0
